@@ -126,7 +126,7 @@ struct OpResult {
     uint8_t n_edge = 0;        // solo pass: events at which the call touched a machine word it shares with a neighbouring
     uint32_t edge_ev[24] = {0}; // task's memory (or memory beyond its own range): the places where a preemption matters
     uint32_t leaked = 0;      // ... and still live when all threads have ended and run their exit handlers (filled in at the end of the pass)
-    uint32_t libc_static = 0; // non-reentrant libc facilities used by the call (bit index: g_libc_static_names)
+    uint64_t libc_static = 0; // non-reentrant libc facilities used by the call (bit index: g_libc_static_names)
     uint32_t double_free = 0; // blocks the library released a second time (the second free is not executed)
     uint32_t heap_overrun = 0; // blocks of the library whose red zone was found overwritten (at free / realloc / end of call)
     uint32_t heap_uaf = 0;     // blocks written to after the library released them (found at end of call), or re-used after release
